@@ -1,7 +1,7 @@
 (* Properties_C10.v — C10: bitwise functions follow infinite two's-complement semantics.
    Statements only. *)
 From Coq Require Import ZArith List Bool.
-From Mpir Require Import Word Limbs MpnBasicDefs MpzDefs BitDefs BitProofs.
+From Mpir Require Import ScanDefs ScanProofs Word Limbs MpnBasicDefs MpzDefs BitDefs BitProofs.
 Import ListNotations.
 Local Open Scope Z_scope.
 
@@ -78,6 +78,15 @@ Theorem C10_mpz_popcount_hamdist : forall u v, mpz_wf u -> mpz_wf v ->
      (if Bool.eqb (value u <? 0) (value v <? 0) then Zpopcount (Z.lxor (value u) (value v)) else BITCNT_MAX).
 Proof. exact mpz_popcount_hamdist_spec. Qed.
 Print Assumptions C10_mpz_popcount_hamdist.
+
+
+(* mpz_scan1 / mpz_scan0 as coded (mpz/scan1.c, mpz/scan0.c) on sign-magnitude limbs: start limb, mask, walking up, for negatives the
+   downward search for a non-zero lower limb (ones-complement region), the skip of zero limbs with limb = -limb, the inverted
+   search running off the end: equal to the value-level definitions for every well-formed operand and every start *)
+Theorem C10_scan_limb_level : forall u start, mpz_wf u -> 0 <= start ->
+  mpz_scan1_c u start = mpz_scan1 u start /\ mpz_scan0_c u start = mpz_scan0 u start.
+Proof. intros u start Hu Hs; split; [exact (mpz_scan1_c_correct u start Hu Hs) | exact (mpz_scan0_c_correct u start Hu Hs)]. Qed.
+Print Assumptions C10_scan_limb_level.
 
 Example C10_nonvacuous :
   mpz_wf (mkz (-2) [0; 1]) /\ mpz_wf (mkz (-1) [3])
